@@ -458,6 +458,7 @@ class Interp:
         self.depth = 0
         self.fresh = itertools.count(1)
         self.memo = {}
+        self._loop_exits = []  # per enclosing modelled loop: [(break|continue, env, line)]
         self._join_ctx = None  # (line, test text) of the `if` whose branches are being joined
         self.conflicts = {}  # fresh-symbol atom -> description of a path-dependent list length
         self.requirements = []  # (Lin that must be >= 0, text): counts used by range() / slices / list repetition
@@ -1274,7 +1275,12 @@ class Interp:
                            ast.FunctionDef, ast.ClassDef)):
             return env
         if isinstance(st, (ast.Break, ast.Continue)):
-            raise NotComparable("break/continue")
+            if not self._loop_exits:
+                raise NotComparable("break/continue outside a modelled loop")
+            # this path leaves the iteration here: its accumulators are joined with the others at the loop end
+            self._loop_exits[-1].append(("break" if isinstance(st, ast.Break) else "continue", dict(env),
+                                         getattr(st, "lineno", "?")))
+            return None
         raise NotComparable("statement %s" % type(st).__name__)
 
     def loop(self, st, env, rets, owner, mod):
@@ -1291,8 +1297,6 @@ class Interp:
                 grown.add(n.func.value.id)
             if isinstance(n, ast.Return):
                 raise NotComparable("return inside a for loop")
-            if isinstance(n, (ast.Break, ast.Continue)):
-                raise NotComparable("break/continue inside a for loop")
         targets = set()
         for n in ast.walk(st.target):
             if isinstance(n, ast.Name):
@@ -1329,11 +1333,21 @@ class Interp:
                     if isinstance(el, ast.Name):
                         body_env[el.id] = ElemV("%s<%s>" % (kk, dkey))
         saved_attrs = dict(self.attrs)
+        self._loop_exits.append([])
         try:
             out = self.block(st.body, body_env, rets, owner, mod)
         except Raised:
             # the body raises on every path: only an empty iterable survives
             out = None
+        exits = self._loop_exits.pop()
+        broke = any(k == "break" for k, _, _ in exits)
+        for kind_, env_x, line_x in exits:
+            saved_ctx = self._join_ctx
+            self._join_ctx = (line_x, kind_)
+            try:
+                out = self.join_env(out, env_x)
+            finally:
+                self._join_ctx = saved_ctx
         self.attrs = {k: (v if saved_attrs.get(k) == v else Opaque("attr changed in loop", k))
                       for k, v in self.attrs.items()}
         new_env = dict(env)
@@ -1342,6 +1356,9 @@ class Interp:
                 new_env[name] = Opaque("loop variable", name)
                 continue
             if out is None:
+                continue
+            if name in tracked and broke:
+                new_env[name] = self.fresh_sym(name)  # the loop may stop early: the number of iterations is unknown
                 continue
             if name in tracked:
                 kind, base = tracked[name]
